@@ -84,7 +84,12 @@ def run_real(kind, dues, cancel, ops, many=0, selfresched=0, behave=None):
                         from reactivex.scheduler import VirtualTimeScheduler
 
                         VirtualTimeScheduler.start(s)
-                    out.append((op, "ok", now(s)))
+                    from datetime import datetime as _dt
+                    if isinstance(s.clock, _dt) != (kind == "historical"):
+                        # a tick clock stays a number, a datetime clock a datetime
+                        out.append((op, f"the clock changed its representation: now a {type(s.clock).__name__}", now(s)))
+                    else:
+                        out.append((op, "ok", now(s)))
                 except Exception as e:
                     out.append((op, type(e).__name__, now(s)))
         finally:
